@@ -162,6 +162,13 @@ def main():
         t = f["qualname"] + ("=" + f["contract"] if f["contract"] != f["qualname"] else "")
         if t not in fz_targets and not f.get("no_fuzz"):
             fz_targets.append(t)
+    for u in r["undecided_functions"]:
+        # a function that left the supported subset is still evaluated concretely against its contract
+        if u["function"].startswith("lemma:"):
+            continue
+        t = u["function"] + ("=" + u["contract"] if u.get("contract") and u["contract"] != u["function"] else "")
+        if t not in fz_targets:
+            fz_targets.append(t)
     fuzz = run_fuzz(fz_targets, tier, seed, os.path.join(HERE, "scratch", "fuzz_%s_%d.json" % (pid, os.getpid())))
     fuzz_viol = {}
     for fr in fuzz:
@@ -195,7 +202,7 @@ def main():
                                                     "detail": x["detail"]}}
         json.dump(rec, open(path, "w"), indent=1, default=str)
         confirmed = False
-        if x["result"] == "sat" and x["witness"] and not any(isinstance(v, dict) and v.get("error") for v in x["witness"].values()):
+        if x["result"] in ("sat", "unknown") and x["witness"] and not any(isinstance(v, dict) and v.get("error") for v in x["witness"].values()):
             confirmed, out = run_replay(path)
         if not confirmed and fuzz_viol.get(x["function"]):
             # the solver's model is not a failing input (loop-head state, or no model): use the failing input that the
